@@ -392,9 +392,11 @@ class TSeq(Shape):
       ctx.assume(z3.ForAll([i], z3.Implies(z3.And(i >= 0, i < n),
                                             z3.IsMember(at(i), elems))),
                  'seq elems: members')
+      # every element has a position (skolemised: no exists under forall)
+      pos = z3.Function(ctx.sym(name + '.pos'), self.esort, z3.IntSort())
       ctx.assume(z3.ForAll([e], z3.Implies(
           z3.IsMember(e, elems),
-          z3.Exists([i], z3.And(i >= 0, i < n, at(i) == e)))),
+          z3.And(pos(e) >= 0, pos(e) < n, at(pos(e)) == e))),
                  'seq elems: covered')
     if self.dupfree:
       i, j = z3.Int(ctx.sym('i')), z3.Int(ctx.sym('j'))
